@@ -395,7 +395,7 @@ func cmdCheck(args []string) int {
 		b, _ := json.MarshalIndent(rf, "", " ")
 		os.WriteFile(path, b, 0o644)
 		pd := pending{path: path, rf: rf, kf: hv.v.KF, natIdx: -1}
-		if hv.h.Native {
+		if hv.h.Native && !strings.HasPrefix(hv.v.Label, "blocked:") && hv.v.Label != "lockset" {
 			pd.natIdx = len(natCases)
 			natCases = append(natCases, nativeCase{Harness: hv.h.Name, Tier: tier, Inputs: hv.v.Inputs})
 		}
